@@ -229,6 +229,31 @@ def run_case(case):
                 dd_ = math.sqrt((pp.x - p.x) ** 2 + (pp.y - p.y) ** 2 + (pp.z - p.z) ** 2)
                 if gt(dd_, (1e-11 * cond * cancel + 64 * tola) * max(rr_, o.a)):
                     add('pal:rebuilt-particle-differs' + (':e-0.2-0.3' if 0.2 < o.e < 0.3 else ''), 'a=%r e=%r inc=%r: particle from pal elements is %.3e away (r=%r)' % (o.a, o.e, o.inc, dd_, rr_))
+            # Pal pair proper: reb_tools_particle_to_pal and reb_particle_from_pal are each other's inverse for every inclination below pi
+            # (lambda is Pal's own longitude there, not Orbit.l with its retrograde convention); the Orbit's pal_* members are the same quantities
+            if 0 < o.e < 0.95 and o.a > 0 and o.inc < math.pi - 0.05:
+                pa, pl, pk, ph, pix, piy = (c_double() for _ in range(6))
+                clib.reb_tools_particle_to_pal(c_double(G), p, prim, byref(pa), byref(pl), byref(pk), byref(ph), byref(pix), byref(piy))
+                counters['pal_pairs' + ('_retrograde' if o.inc > math.pi / 2 else '')] = counters.get('pal_pairs' + ('_retrograde' if o.inc > math.pi / 2 else ''), 0) + 1
+                icond = 2.0 / (1.0 + math.cos(o.inc))
+                tolp = (1e-11 * cond * cancel + 64 * tola) * icond
+                for nm_, v_, w_ in (('k', pk.value, o.pal_k), ('h', ph.value, o.pal_h), ('ix', pix.value, o.pal_ix), ('iy', piy.value, o.pal_iy)):
+                    if gt(abs(v_ - w_), tolp * (1 + abs(w_))):
+                        add('pal:orbit-member-differs-from-particle_to_pal', '%s: %r vs Orbit.pal_%s %r (e=%r inc=%r)' % (nm_, v_, nm_, w_, o.e, o.inc))
+                if gt(abs(pa.value - o.a), tolp * abs(o.a)):
+                    add('pal:orbit-member-differs-from-particle_to_pal', 'a: %r vs %r (e=%r inc=%r)' % (pa.value, o.a, o.e, o.inc))
+                if gt(abs(math.hypot(pk.value, ph.value) - o.e), tolp * (1 + o.e)):
+                    add('pal:relation-hk-norm', 'sqrt(h^2+k^2)=%r e=%r inc=%r' % (math.hypot(pk.value, ph.value), o.e, o.inc))
+                if gt(abs(math.hypot(pix.value, piy.value) - 2 * math.sin(o.inc / 2)), tolp * 2):
+                    add('pal:relation-ixiy-norm', 'sqrt(ix^2+iy^2)=%r 2 sin(i/2)=%r' % (math.hypot(pix.value, piy.value), 2 * math.sin(o.inc / 2)))
+                pp = clib.reb_particle_from_pal(c_double(G), prim, c_double(m), pa, pl, pk, ph, pix, piy)
+                rr_ = math.sqrt((p.x - prim.x) ** 2 + (p.y - prim.y) ** 2 + (p.z - prim.z) ** 2)
+                vv_ = math.sqrt((p.vx - prim.vx) ** 2 + (p.vy - prim.vy) ** 2 + (p.vz - prim.vz) ** 2)
+                dd_ = math.sqrt((pp.x - p.x) ** 2 + (pp.y - p.y) ** 2 + (pp.z - p.z) ** 2)
+                dv_ = math.sqrt((pp.vx - p.vx) ** 2 + (pp.vy - p.vy) ** 2 + (pp.vz - p.vz) ** 2)
+                counters['max_pal_pair_err_x1e15'] = max(counters.get('max_pal_pair_err_x1e15', 0), int(dd_ / max(rr_, o.a) / icond * 1e15))
+                if gt(dd_, tolp * max(rr_, o.a)) or gt(dv_, tolp * vv_ * (1 + o.e) / (1 - o.e)):
+                    add('pal:particle_to_pal-from_pal-not-inverse' + (':e-0.2-0.3' if 0.2 < o.e < 0.3 else ''), 'a=%r e=%r inc=%r: %.3e away in position (r=%r), %.3e in velocity (v=%r)' % (o.a, o.e, o.inc, dd_, rr_, dv_, vv_))
             ev_ = [o.evec.x, o.evec.y, o.evec.z]
             hv_ = [o.hvec.x, o.hvec.y, o.hvec.z]
             if gt(abs(math.sqrt(sum(q * q for q in ev_)) - o.e), 16 * EPS * (1 + o.e)):
